@@ -148,15 +148,22 @@ func (w *World) applyTable(ds *Doc, op sim.Op, o *Obs) {
 	case "t.style":
 		o.Err = t.ApplyTableStyle(&document.TableStyleConfig{Template: document.TableStyleTemplate(op.Str(0)), StyleID: op.Str(1), FirstRowHeader: a&1 != 0, LastRowTotal: a&2 != 0, FirstColumnHeader: a&4 != 0, LastColumnTotal: a&8 != 0, BandedRows: a&16 != 0, BandedColumns: a&32 != 0})
 	case "t.borders":
-		bc := &document.BorderConfig{Style: document.BorderStyle(op.Str(0)), Width: a, Color: op.Str(1), Space: b}
-		o.Err = t.SetTableBorders(&document.TableBorderConfig{Top: bc, Left: bc, Bottom: bc, Right: bc, InsideH: bc, InsideV: bc})
+		// every side gets its own configuration (a frame differs from the inner grid)
+		side := func(k int) *document.BorderConfig {
+			styles := []string{op.Str(0), "single", "dotted", "double", "none", "thick"}
+			return &document.BorderConfig{Style: document.BorderStyle(styles[(k*(1+b))%len(styles)]), Width: a + k, Color: []string{op.Str(1), "FF0000", "00FF00", "0000FF", "auto", "808080"}[k], Space: (b + k) % 4}
+		}
+		o.Err = t.SetTableBorders(&document.TableBorderConfig{Top: side(0), Left: side(1), Bottom: side(2), Right: side(3), InsideH: side(4), InsideV: side(5)})
 	case "t.noborders":
 		o.Err = t.RemoveTableBorders()
 	case "t.shading":
 		o.Err = t.SetTableShading(&document.ShadingConfig{Pattern: document.ShadingPattern(op.Str(0)), ForegroundColor: op.Str(1), BackgroundColor: op.Str(2)})
 	case "t.cellborders":
-		bc := &document.BorderConfig{Style: document.BorderStyle(op.Str(0)), Width: c, Color: op.Str(1), Space: d}
-		o.Err = t.SetCellBorders(a, b, &document.CellBorderConfig{Top: bc, Left: bc, Bottom: bc, Right: bc})
+		cside := func(k int) *document.BorderConfig {
+			styles := []string{op.Str(0), "single", "dashed", "double"}
+			return &document.BorderConfig{Style: document.BorderStyle(styles[(k*(1+d))%len(styles)]), Width: c + k, Color: []string{op.Str(1), "FF0000", "00FF00", "0000FF"}[k], Space: (d + k) % 3}
+		}
+		o.Err = t.SetCellBorders(a, b, &document.CellBorderConfig{Top: cside(0), Left: cside(1), Bottom: cside(2), Right: cside(3)})
 	case "t.cellshading":
 		o.Err = t.SetCellShading(a, b, &document.ShadingConfig{Pattern: document.ShadingPattern(op.Str(0)), ForegroundColor: op.Str(1), BackgroundColor: op.Str(2)})
 	case "t.altrows":
